@@ -94,6 +94,113 @@ def lean_tuples(rows):
 
 
 # ------------------------------------------------------------------------------------------
+# A tiny Rust-expression -> Lean translator for the shift/mask expressions of the header
+# parsers.  Grammar: numbers, `uN::from(e)` (widening, identity), `name[idx]`, names, parentheses,
+# binary `* / + << >> & |` with RUST precedence; the Lean text is fully parenthesised, so the
+# different precedences of Lean's `>>>`/`&&&` do not matter.  Anything else is an ExtractError.
+_TOK = re.compile(r"\s*(0x[0-9A-Fa-f_]+|0b[01_]+|\d[\d_]*|[A-Za-z_][A-Za-z0-9_]*(?:(?:::|\.)[A-Za-z0-9_]+)*|>>|<<|==|[()\[\]&|+*/\-])")
+_PREC = {"*": 7, "/": 7, "+": 6, "<<": 5, ">>": 5, "&": 4, "|": 2}
+_LEANOP = {"*": "*", "/": "/", "+": "+", "<<": "<<<", ">>": ">>>", "&": "&&&", "|": "|||"}
+
+
+def rust_num(tok):
+    m = re.fullmatch(r"(0x[0-9A-Fa-f_]+|0b[01_]+|\d[\d_]*?)(u8|u16|u32|u64|usize)?", tok)
+    if not m:
+        return None
+    return int(m.group(1).replace("_", ""), 0)
+
+
+class RustExpr:
+    def __init__(self, text, varmap, anchor):
+        self.anchor = anchor
+        self.varmap = varmap
+        self.toks = []
+        pos = 0
+        text = text.strip()
+        while pos < len(text):
+            m = _TOK.match(text, pos)
+            if not m:
+                raise ExtractError(f"extract:{anchor}: cannot tokenise {text[pos:pos+20]!r}")
+            self.toks.append(m.group(1))
+            pos = m.end()
+        self.i = 0
+
+    def peek(self):
+        return self.toks[self.i] if self.i < len(self.toks) else None
+
+    def take(self, t=None):
+        x = self.peek()
+        if x is None or (t is not None and x != t):
+            raise ExtractError(f"extract:{self.anchor}: expected {t!r}, found {x!r}")
+        self.i += 1
+        return x
+
+    def atom(self):
+        t = self.take()
+        if t == "(":
+            e = self.expr(0)
+            self.take(")")
+            return e
+        n = rust_num(t)
+        if n is not None:
+            return str(n)
+        if re.fullmatch(r"(u8|u16|u32|u64|usize)::from", t):
+            self.take("(")
+            e = self.expr(0)
+            self.take(")")
+            return e
+        if re.fullmatch(r"[A-Za-z_][A-Za-z0-9_.:]*", t):
+            if self.peek() == "[":
+                self.take("[")
+                idx = rust_num(self.take())
+                self.take("]")
+                key = (t, idx)
+            else:
+                key = t
+            if key not in self.varmap:
+                raise ExtractError(f"extract:{self.anchor}: unknown operand {key!r}")
+            return self.varmap[key]
+        raise ExtractError(f"extract:{self.anchor}: unexpected token {t!r}")
+
+    def expr(self, minp):
+        lhs = self.atom()
+        while True:
+            op = self.peek()
+            if op not in _PREC or _PREC[op] < minp:
+                return lhs
+            self.take()
+            rhs = self.expr(_PREC[op] + 1)
+            lhs = f"({lhs} {_LEANOP[op]} {rhs})"
+
+    def parse(self):
+        e = self.expr(0)
+        if self.peek() is not None:
+            raise ExtractError(f"extract:{self.anchor}: trailing {self.peek()!r}")
+        return e
+
+
+def rust_expr(text, varmap, anchor):
+    return RustExpr(text, varmap, anchor).parse()
+
+
+def block_after(text, start_pat, anchor):
+    """brace-balanced block following the first match of start_pat (which must end before the `{`)."""
+    m = re.search(start_pat, text)
+    if not m:
+        raise ExtractError(f"extract:{anchor}")
+    i = text.index("{", m.end() - 1)
+    depth = 0
+    for j in range(i, len(text)):
+        if text[j] == "{":
+            depth += 1
+        elif text[j] == "}":
+            depth -= 1
+            if depth == 0:
+                return text[i + 1 : j]
+    raise ExtractError(f"extract:{anchor}: unbalanced")
+
+
+# ------------------------------------------------------------------------------------------
 def gen_consts():
     common = strip_comments(read("ruzstd/src/common/mod.rs"))
     fd = strip_comments(read("ruzstd/src/decoding/frame_decoder.rs"))
@@ -335,26 +442,55 @@ def gen_guards():
         raise ExtractError("extract:guards:compress_fastest raw fallback")
     G.append(("rawFallbackVsBlock", m.group("op1"), "fastest.rs `compressed_size OP block_size` (true = store raw)"))
     G.append(("rawFallbackVsMax", m.group("op2"), "fastest.rs `compressed_size OP MAX_BLOCK_SIZE` (true = store raw)"))
-    # the clamp in set_max_window_size
+    # ---- order-of-check facts, as plain Bool constants
+    B = []
     body = fn_body(fd, "set_max_window_size", "guards")
-    if not re.search(r"self\.max_window_size\s*=\s*max_window_size\s*\.min\(\s*crate::common::MAX_WINDOW_SIZE\s*\)", body):
+    if re.search(r"self\.max_window_size\s*=\s*max_window_size\s*\.min\(\s*crate::common::MAX_WINDOW_SIZE\s*\)\s*;", body):
+        clamps = True
+    elif re.search(r"self\.max_window_size\s*=\s*max_window_size\s*;", body):
+        clamps = False
+    else:
         raise ExtractError("extract:guards:set_max_window_size clamp")
-    # both construction paths call check_window_size before touching the scratch
+    B.append(("setMaxWindowClamps", clamps, "`set_max_window_size` stores `max_window_size.min(MAX_WINDOW_SIZE)` (false: stores it unclamped)"))
+    st = fd[fd.index("impl FrameDecoderState"):]
     for fname in ("new", "reset"):
-        b = fn_body(fd[fd.index("impl FrameDecoderState"):], fname, "guards")
+        b = fn_body(st, fname, "guards")
+        rd = b.find("read_frame_header(source)?")
+        ws = b.find(".window_size()?")
         i = b.find("check_window_size(window_size, max_window_size)?")
         j1 = b.find("DecoderScratch::new(")
         j2 = b.find("decoder_scratch.reset(")
         j = max(j1, j2)
-        if i < 0 or j < 0:
-            raise ExtractError(f"extract:guards:FrameDecoderState::{fname} check/alloc anchors")
-        G.append((f"checkBeforeAlloc_{fname}", "<" if i < j else ">", f"frame_decoder.rs FrameDecoderState::{fname}: position of check_window_size relative to the scratch (re)allocation"))
+        if rd < 0 or ws < 0 or j < 0:
+            raise ExtractError(f"extract:guards:FrameDecoderState::{fname} header/alloc anchors")
+        # i < 0: the call is gone -> the path does not check at all
+        B.append((f"checkPresent_{fname}", i >= 0, f"FrameDecoderState::{fname} calls check_window_size(window_size, max_window_size)?"))
+        B.append((f"checkBeforeAlloc_{fname}", i >= 0 and rd < ws < i < j, f"FrameDecoderState::{fname}: read header, window_size()?, check_window_size, and only then the scratch (re)allocation"))
+        if fname == "reset":
+            k = b.find("self.")
+            B.append(("checkBeforeMutate_reset", i >= 0 and (k < 0 or i < k), "FrameDecoderState::reset: no field of self is written before check_window_size"))
+    b = fn_body(fd[fd.index("impl FrameDecoder {"):], "new", "guards")
+    B.append(("newUsesDefaultLimit", bool(re.search(r"max_window_size\s*:\s*DEFAULT_MAX_WINDOW_SIZE\s*,", b)), "FrameDecoder::new sets max_window_size: DEFAULT_MAX_WINDOW_SIZE"))
+    b = fn_body(fd[fd.index("impl FrameDecoder {"):], "reset", "guards")
+    B.append(("resetPassesLimit_reuse", bool(re.search(r"s\.reset\(\s*source\s*,\s*self\.max_window_size\s*\)\?", b)), "FrameDecoder::reset: reuse path passes self.max_window_size"))
+    B.append(("resetPassesLimit_new", bool(re.search(r"FrameDecoderState::new\(\s*source\s*,\s*self\.max_window_size\s*\)\?", b)), "FrameDecoder::reset: first-use path passes self.max_window_size"))
+    sd = strip_comments(read("ruzstd/src/decoding/streaming_decoder.rs"))
+    b = fn_body(sd, "new_with_max_window_size", "guards")
+    i1 = b.find("decoder.set_max_window_size(max_window_size)")
+    i2 = b.find("decoder.init(&mut source)?")
+    if i2 < 0:
+        raise ExtractError("extract:guards:StreamingDecoder::new_with_max_window_size init")
+    B.append(("streamingSetsLimitBeforeInit", 0 <= i1 < i2, "StreamingDecoder::new_with_max_window_size calls set_max_window_size before init"))
+    # check_window_size reports (requested: window_size, max: max_window_size)
+    b = fn_body(fd, "check_window_size", "guards")
+    B.append(("checkReportsRequestedAndMax", bool(re.search(r"WindowSizeTooBig\s*\{\s*requested\s*:\s*window_size\s*,\s*max\s*:\s*max_window_size\s*,?\s*\}", b)), "check_window_size returns WindowSizeTooBig { requested: window_size, max: max_window_size }"))
     L = ["/- GENERATED by tools/extract.py from /repo — do not edit. -/", "namespace Zstd.Gen", ""]
     for name, op, where in G:
         L.append(f"/-- `{where}`; source operator `{op}` -/")
         L.append(f"def {name} (a b : Nat) : Bool := decide ({OPS[op]})")
-    L.append("/-- `set_max_window_size` clamps with `.min(MAX_WINDOW_SIZE)` (anchor present in source) -/")
-    L.append("def setMaxWindowClamps : Bool := true")
+    for name, val, where in B:
+        L.append(f"/-- {where} -/")
+        L.append(f"def {name} : Bool := {'true' if val else 'false'}")
     L += ["", "end Zstd.Gen", ""]
     return "\n".join(L)
 
@@ -365,7 +501,7 @@ def gen_headers():
     bd = strip_comments(read("ruzstd/src/decoding/block_decoder.rs"))
     ls = strip_comments(read("ruzstd/src/blocks/literals_section.rs"))
     ss = strip_comments(read("ruzstd/src/blocks/sequence_section.rs"))
-    L = ["/- GENERATED by tools/extract.py from /repo — do not edit. -/", "namespace Zstd.Gen", ""]
+    L = ["/- GENERATED by tools/extract.py from /repo — do not edit. -/", "set_option linter.unusedVariables false", "namespace Zstd.Gen", ""]
     # frame_content_size_bytes: 0 => {single?1:0}, 1 => 2, 2 => 4, 3 => 8
     b = fn_body(fr, "frame_content_size_bytes", "headers")
     rows = re.findall(r"\b(\d)\s*=>\s*Ok\((\d)\)", b)
@@ -405,8 +541,348 @@ def gen_headers():
     names = {"Predefined": 0, "RLE": 1, "FSECompressed": 2, "Repeat": 3}
     L.append("/-- `decode_mode`: 2-bit field ↦ mode (0 Predefined, 1 RLE, 2 FSECompressed, 3 Repeat) -/")
     L.append(f"def seqModeMap : List (Nat × Nat) := {lean_tuples([(int(a), names[n]) for a, n in rows])}")
+    gen_headers_more(L, fr, bd, ls)
     L += ["", "end Zstd.Gen", ""]
     return "\n".join(L)
+
+
+def _arms(body, anchor):
+    """top-level arms `PAT => { BLOCK }` of a match body: [(pattern text, block text)]"""
+    out = []
+    i = 0
+    n = len(body)
+    while True:
+        m = re.compile(r"\s*([^{}]+?)\s*=>\s*").match(body, i)
+        if not m:
+            break
+        j = m.end()
+        if j < n and body[j] == "{":
+            depth = 0
+            k = j
+            while k < n:
+                if body[k] == "{":
+                    depth += 1
+                elif body[k] == "}":
+                    depth -= 1
+                    if depth == 0:
+                        break
+                k += 1
+            out.append((m.group(1).strip(), body[j + 1 : k]))
+            i = k + 1
+        else:
+            # expression arm up to the next top-level comma
+            depth = 0
+            k = j
+            while k < n and not (body[k] == "," and depth == 0):
+                if body[k] in "([{":
+                    depth += 1
+                elif body[k] in ")]}":
+                    depth -= 1
+                k += 1
+            out.append((m.group(1).strip(), body[j:k].strip()))
+            i = k + 1
+        while i < n and body[i] in ", \n\t":
+            i += 1
+    if body[i:].strip():
+        raise ExtractError(f"extract:{anchor}: unparsed match tail {body[i:i+40]!r}")
+    return out
+
+
+def _pat_values(pat, anchor):
+    """`0 | 2` -> [0, 2];  `1..=3` -> [1, 2, 3];  `_` -> None"""
+    if pat == "_":
+        return None
+    m = re.fullmatch(r"(\d+)\s*\.\.=\s*(\d+)", pat)
+    if m:
+        return list(range(int(m.group(1)), int(m.group(2)) + 1))
+    try:
+        return [int(x.strip()) for x in pat.split("|")]
+    except ValueError:
+        raise ExtractError(f"extract:{anchor}: pattern {pat!r}")
+
+
+def gen_headers_more(L, fr, bd, ls):
+    RAW = {("raw", i): f"r{i}" for i in range(5)}
+    # ---------------- literals section: header_bytes_needed
+    b = fn_body(ls, "header_bytes_needed", "headers")
+    groups = {}
+    for key, pat in (("RawRle", r"LiteralsSectionType::RLE\s*\|\s*LiteralsSectionType::Raw\s*=>\s*\{"),
+                     ("Compressed", r"LiteralsSectionType::Compressed\s*\|\s*LiteralsSectionType::Treeless\s*=>\s*\{")):
+        inner = block_after(b, pat, f"headers:header_bytes_needed:{key}")
+        mb = block_after(inner, r"match\s+size_format\s*\{", f"headers:header_bytes_needed:{key}:match")
+        rows = []
+        for pat_, blk in _arms(mb, f"headers:header_bytes_needed:{key}"):
+            vals = _pat_values(pat_, "headers:header_bytes_needed")
+            if vals is None:
+                if "panic!" not in blk:
+                    raise ExtractError("extract:headers:header_bytes_needed default arm")
+                continue
+            m = re.search(r"Ok\((\d+)\)", blk)
+            if not m:
+                raise ExtractError("extract:headers:header_bytes_needed arm value")
+            rows += [(v, int(m.group(1))) for v in vals]
+        groups[key] = rows
+        L.append(f"/-- `LiteralsSection::header_bytes_needed`, {key} types: size_format ↦ header bytes -/")
+        L.append(f"def litHdrBytes{key} : List (Nat × Nat) := {lean_tuples(rows)}")
+    m = re.search(r"let\s+size_format\s*=\s*([^;]+);", b)
+    if not m:
+        raise ExtractError("extract:headers:header_bytes_needed size_format")
+    L.append("/-- `header_bytes_needed`: `let size_format = …` as a function of the first byte -/")
+    L.append(f"def litSizeFormatOfFirst (r0 : Nat) : Nat := {rust_expr(m.group(1), {'first_byte': 'r0'}, 'headers:size_format')}")
+    b = fn_body(ls, "section_type", "headers")
+    m = re.search(r"let\s+t\s*=\s*([^;]+);", b)
+    if not m:
+        raise ExtractError("extract:headers:section_type expr")
+    L.append("/-- `section_type`: `let t = …` -/")
+    L.append(f"def litTypeOfRaw (r0 : Nat) : Nat := {rust_expr(m.group(1), {'raw': 'r0'}, 'headers:section_type')}")
+    # ---------------- literals section: parse_from_header size expressions
+    b = fn_body(ls, "parse_from_header", "headers")
+    tail = b[b.index("match self.ls_type"):]
+    inner = block_after(tail, r"LiteralsSectionType::RLE\s*\|\s*LiteralsSectionType::Raw\s*=>\s*\{", "headers:parse_from_header:RawRle")
+    mb = block_after(inner, r"match\s+size_format\s*\{", "headers:parse_from_header:RawRle:match")
+    rows = []
+    for pat_, blk in _arms(mb, "headers:parse_from_header:RawRle"):
+        vals = _pat_values(pat_, "headers:parse_from_header")
+        if vals is None:
+            continue
+        m1 = re.search(r"self\.regenerated_size\s*=\s*([^;]+);", blk)
+        m2 = re.search(r"Ok\((\d+)\)", blk)
+        if not m1 or not m2 or "compressed_size" in blk:
+            raise ExtractError("extract:headers:parse_from_header RawRle arm")
+        e = rust_expr(m1.group(1), RAW, "headers:parse_from_header:regen")
+        reach = 1 + max(int(x) for x in re.findall(r"raw\[(\d)\]", blk))
+        for v in vals:
+            rows.append((v, e, int(m2.group(1)), reach))
+    if sorted(r[0] for r in rows) != [0, 1, 2, 3]:
+        raise ExtractError("extract:headers:parse_from_header RawRle arms incomplete")
+    L.append("/-- `parse_from_header`, Raw/RLE: size_format ↦ (regenerated_size expression, bytes used); `rI` = `raw[I]` -/")
+    L.append("def litParseRawRle (sf r0 r1 r2 r3 r4 : Nat) : Option (Nat × Nat) :=")
+    L.append("  match sf with")
+    for v, e, used, reach in sorted(rows):
+        L.append(f"  | {v} => some ({e}, {used})")
+    L.append("  | _ => none")
+    L.append("/-- `parse_from_header`, Raw/RLE: size_format ↦ 1 + highest index `raw[I]` the arm touches -/")
+    L.append(f"def litParseRawRleReach : List (Nat × Nat) := {lean_tuples([(v, reach) for v, _, _, reach in sorted(rows)])}")
+    inner = block_after(tail, r"LiteralsSectionType::Compressed\s*\|\s*LiteralsSectionType::Treeless\s*=>\s*\{", "headers:parse_from_header:Compressed")
+    # first match: num_streams, second match: sizes
+    i1 = inner.index("match size_format")
+    mb1 = block_after(inner[i1:], r"match\s+size_format\s*\{", "headers:parse_from_header:streams")
+    i2 = inner.index("match size_format", i1 + 5)
+    mb2 = block_after(inner[i2:], r"match\s+size_format\s*\{", "headers:parse_from_header:sizes")
+    srows = []
+    for pat_, blk in _arms(mb1, "headers:parse_from_header:streams"):
+        vals = _pat_values(pat_, "headers:parse_from_header")
+        if vals is None:
+            continue
+        m = re.search(r"self\.num_streams\s*=\s*Some\((\d+)\)", blk)
+        if not m:
+            raise ExtractError("extract:headers:parse_from_header num_streams arm")
+        srows += [(v, int(m.group(1))) for v in vals]
+    L.append("/-- `parse_from_header`, Compressed/Treeless: size_format ↦ num_streams -/")
+    L.append(f"def litStreams : List (Nat × Nat) := {lean_tuples(sorted(srows))}")
+    rows = []
+    for pat_, blk in _arms(mb2, "headers:parse_from_header:sizes"):
+        vals = _pat_values(pat_, "headers:parse_from_header")
+        if vals is None:
+            continue
+        m1 = re.search(r"self\.regenerated_size\s*=\s*([^;]+);", blk)
+        m3 = re.search(r"self\.compressed_size\s*=\s*Some\(((?:[^()]|\((?:[^()]|\((?:[^()]|\([^()]*\))*\))*\))*)\)\s*;", blk)
+        m2 = re.search(r"Ok\((\d+)\)", blk)
+        if not m1 or not m2 or not m3:
+            raise ExtractError("extract:headers:parse_from_header Compressed arm")
+        e1 = rust_expr(m1.group(1), RAW, "headers:parse_from_header:regen")
+        e3 = rust_expr(m3.group(1).rstrip().rstrip(","), RAW, "headers:parse_from_header:comp")
+        reach = 1 + max(int(x) for x in re.findall(r"raw\[(\d)\]", blk))
+        for v in vals:
+            rows.append((v, e1, e3, int(m2.group(1)), reach))
+    if sorted(r[0] for r in rows) != [0, 1, 2, 3]:
+        raise ExtractError("extract:headers:parse_from_header Compressed arms incomplete")
+    L.append("/-- `parse_from_header`, Compressed/Treeless: size_format ↦ (regenerated, compressed, bytes used) -/")
+    L.append("def litParseCompressed (sf r0 r1 r2 r3 r4 : Nat) : Option (Nat × Nat × Nat) :=")
+    L.append("  match sf with")
+    for v, e1, e3, used, reach in sorted(rows):
+        L.append(f"  | {v} => some ({e1}, {e3}, {used})")
+    L.append("  | _ => none")
+    L.append("/-- `parse_from_header`, Compressed/Treeless: size_format ↦ 1 + highest index `raw[I]` the arm touches -/")
+    L.append(f"def litParseCompressedReach : List (Nat × Nat) := {lean_tuples([(v, reach) for v, _, _, _, reach in sorted(rows)])}")
+    # ---------------- block header (decoder)
+    HB = {("self.header_buffer", i): f"b{i}" for i in range(3)}
+    b = fn_body(bd, "block_content_size_unchecked", "headers")
+    L.append("/-- `block_content_size_unchecked`; `bI` = `self.header_buffer[I]` -/")
+    L.append(f"def blockSizeExpr (b0 b1 b2 : Nat) : Nat := {rust_expr(b, HB, 'headers:block_content_size_unchecked')}")
+    b = fn_body(bd, "block_type", "headers")
+    m = re.search(r"let\s+t\s*=\s*([^;]+);", b)
+    if not m:
+        raise ExtractError("extract:headers:block_type expr")
+    L.append("/-- `block_type`: `let t = …` -/")
+    L.append(f"def blockTypeExpr (b0 b1 b2 : Nat) : Nat := {rust_expr(m.group(1), HB, 'headers:block_type')}")
+    b = fn_body(bd, "is_last", "headers")
+    m = re.fullmatch(r"\s*(.+?)\s*==\s*1\s*", b, flags=re.S)
+    if not m:
+        raise ExtractError("extract:headers:is_last")
+    L.append("/-- `is_last`: `… == 1` -/")
+    L.append(f"def blockLastExpr (b0 b1 b2 : Nat) : Nat := {rust_expr(m.group(1), HB, 'headers:is_last')}")
+    # decompressed_size / content_size per type in read_block_header
+    b = fn_body(bd, "read_block_header", "headers")
+    names = {"Raw": 0, "RLE": 1, "Compressed": 2, "Reserved": 3}
+    for var, lean in (("decompressed_size", "blockDecompressedSizeArms"), ("content_size", "blockContentSizeArms")):
+        mb = block_after(b, r"let\s+" + var + r"\s*=\s*match\s+btype\s*\{", f"headers:read_block_header:{var}")
+        rows = []
+        for t, v in re.findall(r"BlockType::(\w+)\s*=>\s*(block_size|\d+)", mb):
+            rows.append((names[t], "none" if v == "block_size" else f"some {v}"))
+        if sorted(r[0] for r in rows) != [0, 1, 2, 3]:
+            raise ExtractError(f"extract:headers:read_block_header:{var}")
+        L.append(f"/-- `read_block_header`: `{var}` per block type; `none` = `block_size` -/")
+        L.append(f"def {lean} : List (Nat × Option Nat) := {lean_tuples(sorted(rows))}")
+    # ---------------- block header (encoder)
+    eb = strip_comments(read("ruzstd/src/encoding/block_header.rs"))
+    b = fn_body(eb, "serialize", "headers")
+    rows = [(names[t], int(v)) for t, v in re.findall(r"BlockType::(\w+)\s*=>\s*(\d+)\s*,", b)]
+    if not re.search(r"BlockType::Reserved\s*=>\s*panic!", b) or sorted(r[0] for r in rows) != [0, 1, 2]:
+        raise ExtractError("extract:headers:BlockHeader::serialize type arms")
+    L.append("/-- encoder `BlockHeader::serialize`: block type ↦ encoded value (`Reserved` panics) -/")
+    L.append(f"def encBlockTypeMap : List (Nat × Nat) := {lean_tuples(sorted(rows))}")
+    m1 = re.search(r"let\s+mut\s+block_header\s*=\s*self\.block_size\s*<<\s*(\d+)\s*;", b)
+    m2 = re.search(r"block_header\s*\|=\s*encoded_block_type\s*<<\s*(\d+)\s*;", b)
+    m3 = re.search(r"block_header\s*\|=\s*self\.last_block as u32\s*;", b)
+    m4 = re.search(r"block_header\.to_le_bytes\(\)\[0\.\.(\d+)\]", b)
+    if not (m1 and m2 and m3 and m4):
+        raise ExtractError("extract:headers:BlockHeader::serialize shifts")
+    L.append("/-- encoder `BlockHeader::serialize`: `block_size << A | type << B | last`, first C little-endian bytes -/")
+    L.append(f"def encBlockSizeShift : Nat := {m1.group(1)}")
+    L.append(f"def encBlockTypeShift : Nat := {m2.group(1)}")
+    L.append(f"def encBlockBytes : Nat := {m4.group(1)}")
+    # ---------------- frame descriptor accessors and window size
+    D = {"self.0": "d"}
+    for fname, lean, iseq in (("frame_content_size_flag", "fdFcsFlag", False), ("single_segment_flag", "fdSingleSegment", True),
+                              ("content_checksum_flag", "fdChecksum", True), ("dict_id_flag", "fdDictIdFlag", False)):
+        b = fn_body(fr, fname, "headers")
+        if iseq:
+            m = re.fullmatch(r"\s*(.+?)\s*==\s*1\s*", b, flags=re.S)
+            if not m:
+                raise ExtractError(f"extract:headers:{fname}")
+            e = rust_expr(m.group(1), D, f"headers:{fname}")
+            L.append(f"/-- `FrameDescriptor::{fname}`: `… == 1` -/")
+            L.append(f"def {lean} (d : Nat) : Bool := decide ({e} = 1)")
+        else:
+            e = rust_expr(b, D, f"headers:{fname}")
+            L.append(f"/-- `FrameDescriptor::{fname}` -/")
+            L.append(f"def {lean} (d : Nat) : Nat := {e}")
+    b = fn_body(fr, "window_size", "headers")
+    W = {"self.window_descriptor": "wd"}
+    lets = re.findall(r"let\s+(\w+)\s*=\s*([^;]+);", b)
+    want = ["exp", "mantissa", "window_log", "window_base", "window_add", "window_size"]
+    if [n for n, _ in lets] != want:
+        raise ExtractError(f"extract:headers:window_size lets {[n for n, _ in lets]}")
+    L.append("/-- `FrameHeader::window_size`, the arithmetic of the non-single-segment branch; `wd` = `self.window_descriptor` -/")
+    L.append("def windowSizeExpr (wd : Nat) : Nat :=")
+    for n, e in lets:
+        le = rust_expr(e, W, f"headers:window_size:{n}")
+        L.append(f"  let {n} := {le}")
+        W[n] = n
+    L.append("  window_size")
+    b = fn_body(fr, "read_frame_header", "headers")
+    m = re.search(r"if\s+fcs_len\s*==\s*(\d+)\s*\{\s*fcs\s*\+=\s*(\d+)\s*;\s*\}", b)
+    if not m:
+        raise ExtractError("extract:headers:read_frame_header +256 rule")
+    L.append("/-- `read_frame_header`: `if fcs_len == A { fcs += B }` -/")
+    L.append(f"def fcsAddLen : Nat := {m.group(1)}")
+    L.append(f"def fcsAdd : Nat := {m.group(2)}")
+    # ---------------- encoder: frame header
+    eh = strip_comments(read("ruzstd/src/encoding/frame_header.rs"))
+    eh = eh[: eh.index("#[cfg(test)]")] if "#[cfg(test)]" in eh else eh
+    b = fn_body(eh, "descriptor", "headers")
+    mb = block_after(b, r"match\s+find_min_size\(id\)\s*\{", "headers:descriptor:dict arms")
+    rows = [(int(a), int(c)) for a, c in re.findall(r"\b(\d+)\s*=>\s*(\d+)\s*,", mb)]
+    if len(rows) != 4 or not re.search(r"_\s*=>\s*panic!", mb):
+        raise ExtractError("extract:headers:descriptor dict arms")
+    L.append("/-- encoder `FrameHeader::descriptor`: `find_min_size(dictionary_id)` ↦ Dictionary_ID_flag (other: panic) -/")
+    L.append(f"def encDidFlagArms : List (Nat × Nat) := {lean_tuples(rows)}")
+    mb = block_after(b, r"match\s+field_size\s*\{", "headers:descriptor:fcs arms")
+    rows = [(int(a), int(c)) for a, c in re.findall(r"\b(\d+)\s*=>\s*(\d+)\s*,", mb)]
+    if len(rows) != 4 or not re.search(r"_\s*=>\s*panic!", mb):
+        raise ExtractError("extract:headers:descriptor fcs arms")
+    L.append("/-- encoder `FrameHeader::descriptor`: `find_min_size(frame_content_size)` ↦ Frame_Content_Size_flag (other: panic) -/")
+    L.append(f"def encFcsFlagArms : List (Nat × Nat) := {lean_tuples(rows)}")
+    # order and widths of the descriptor bit fields
+    order = re.findall(r"bw\.write_bits\(\s*(flag_value|0u8|1u8)\s*,\s*(\d+)\s*\)", b)
+    widths = [int(w) for _, w in order]
+    if widths != [2, 2, 1, 1, 1, 1, 1, 1, 2, 2]:
+        raise ExtractError(f"extract:headers:descriptor write order {widths}")
+    b = fn_body(eh, "serialize", "headers")
+    m = re.search(r"let\s+exponent\s*=\s*if\s+log\s*>\s*(\d+)\s*\{\s*log\s*-\s*(\d+)\s*\}\s*else\s*\{\s*(\d+)\s*\}\s*as u8\s*;\s*output\.push\(exponent\s*<<\s*(\d+)\)", b)
+    if not m or not re.search(r"let\s+log\s*=\s*window_size\.next_power_of_two\(\)\.ilog2\(\)\s*;", b):
+        raise ExtractError("extract:headers:FrameHeader::serialize window descriptor")
+    L.append("/-- encoder `FrameHeader::serialize`: `exponent = if log > A { log - B } else { C }; push(exponent << D)` -/")
+    L.append(f"def encWinLogAbove : Nat := {m.group(1)}")
+    L.append(f"def encWinLogSub : Nat := {m.group(2)}")
+    L.append(f"def encWinExpElse : Nat := {m.group(3)}")
+    L.append(f"def encWinShift : Nat := {m.group(4)}")
+    b = fn_body(eh, "minify_val_fcs", "headers")
+    m = re.search(r"if\s+new_size\s*==\s*(\d+)\s*\{\s*val\s*-=\s*(\d+)\s*;\s*\}", b)
+    if not m:
+        raise ExtractError("extract:headers:minify_val_fcs")
+    L.append("/-- encoder `minify_val_fcs`: `if new_size == A { val -= B }` -/")
+    L.append(f"def encFcsSubLen : Nat := {m.group(1)}")
+    L.append(f"def encFcsSub : Nat := {m.group(2)}")
+    eu = strip_comments(read("ruzstd/src/encoding/util.rs"))
+    b = fn_body(eu, "find_min_size", "headers")
+    rows = [(int(a), int(c)) for a, c in re.findall(r"if\s+val\s*>>\s*(\d+)\s*==\s*0\s*\{\s*return\s+(\d+)\s*;\s*\}", b)]
+    m0 = re.search(r"if\s+val\s*==\s*0\s*\{\s*return\s+(\d+)\s*;\s*\}", b)
+    m9 = re.search(r"\}\s*(\d+)\s*$", b.strip())
+    if len(rows) != 3 or not m0 or not m9:
+        raise ExtractError("extract:headers:find_min_size")
+    L.append("/-- `find_min_size`: value for 0; `(shift, bytes)` tests in order (`val >> shift == 0`); default -/")
+    L.append(f"def findMinSizeZero : Nat := {m0.group(1)}")
+    L.append(f"def findMinSizeArms : List (Nat × Nat) := {lean_tuples(rows)}")
+    L.append(f"def findMinSizeDefault : Nat := {m9.group(1)}")
+    # what FrameCompressor::compress puts into the header
+    fc = strip_comments(read("ruzstd/src/encoding/frame_compressor.rs"))
+    m = re.search(r"let\s+header\s*=\s*FrameHeader\s*\{\s*frame_content_size\s*:\s*None\s*,\s*single_segment\s*:\s*false\s*,\s*content_checksum\s*:\s*cfg!\(feature\s*=\s*\"hash\"\)\s*,\s*dictionary_id\s*:\s*None\s*,\s*window_size\s*:\s*Some\(self\.state\.matcher\.window_size\(\)\)\s*,?\s*\}", fc)
+    if not m:
+        raise ExtractError("extract:headers:FrameCompressor::compress header literal")
+    L.append("/-- `FrameCompressor::compress` builds `FrameHeader { frame_content_size: None, single_segment: false, content_checksum: cfg!(feature = \"hash\"), dictionary_id: None, window_size: Some(matcher.window_size()) }` (anchor present) -/")
+    L.append("def compressHeaderShape : Bool := true")
+    # ---------------- encoder: literals section headers
+    c = strip_comments(read("ruzstd/src/encoding/blocks/compressed.rs"))
+    b = fn_body(c, "raw_literals", "headers")
+    w = re.findall(r"writer\.write_bits\(\s*([^,]+?)\s*,\s*(\d+)\s*\)\s*;", b)
+    if len(w) != 3 or w[2][0] != "literals.len() as u32" or rust_num(w[0][0]) is None or rust_num(w[1][0]) is None:
+        raise ExtractError("extract:headers:raw_literals writes")
+    L.append("/-- `raw_literals`: write_bits(type, A); write_bits(size_format, B); write_bits(len, C) -/")
+    L.append(f"def rawLitWrites : List (Nat × Nat) := {lean_tuples([(rust_num(w[0][0]), int(w[0][1])), (rust_num(w[1][0]), int(w[1][1]))])}")
+    L.append(f"def rawLitSizeBits : Nat := {int(w[2][1])}")
+    b = fn_body(c, "compress_literals", "headers")
+    m = re.search(r"if\s+new_table\s*\{\s*writer\.write_bits\(\s*(\w+)\s*,\s*(\d+)\s*\)\s*;\s*\}\s*else\s*\{\s*writer\.write_bits\(\s*(\w+)\s*,\s*(\d+)\s*\)\s*;\s*\}", b)
+    if not m or m.group(2) != m.group(4):
+        raise ExtractError("extract:headers:compress_literals type bits")
+    L.append("/-- `compress_literals`: literals type written for a new table / for the reused table, and its width -/")
+    L.append(f"def litTypeNewTable : Nat := {rust_num(m.group(1))}")
+    L.append(f"def litTypeReuseTable : Nat := {rust_num(m.group(3))}")
+    L.append(f"def litTypeBits : Nat := {m.group(2)}")
+    mb = block_after(b, r"match\s+literals\.len\(\)\s*\{", "headers:compress_literals size_format arms")
+    rows = [(int(lo), int(hi), rust_num(sf), int(bits)) for lo, hi, sf, bits in re.findall(r"(\d+)\s*\.\.\s*(\d+)\s*=>\s*\(\s*(\w+)\s*,\s*(\d+)\s*\)", mb)]
+    if len(rows) != 4 or not re.search(r"_\s*=>\s*unimplemented!", mb) or len(re.findall(r"=>", mb)) != 5:
+        raise ExtractError("extract:headers:compress_literals size_format arms")
+    L.append("/-- `compress_literals`: `lo..hi => (size_format, size_bits)` (hi exclusive); anything else is `unimplemented!` -/")
+    L.append(f"def litSizeFormatArms : List (Nat × Nat × Nat × Nat) := {lean_tuples(rows)}")
+    seq = re.findall(r"writer\.(write_bits|change_bits)\(\s*([^;]+?)\s*\)\s*;", b[b.index("let (size_format, size_bits)"):])
+    want = [("write_bits", "size_format, 2"), ("write_bits", "literals.len() as u32, size_bits"), ("write_bits", "0u32, size_bits"), ("change_bits", "size_index, encoded_len as u64, size_bits")]
+    if seq != want:
+        raise ExtractError(f"extract:headers:compress_literals write sequence {seq}")
+    L.append("/-- `compress_literals` writes size_format (2 bits), regenerated size, a zero placeholder, then patches the compressed size in with change_bits (anchor present) -/")
+    L.append("def litSizeFormatBits : Nat := 2")
+    m = re.search(r"if\s+size_format\s*==\s*(\d+)\s*\{\s*encoder\.encode\(", b)
+    if not m:
+        raise ExtractError("extract:headers:compress_literals single-stream format")
+    L.append("/-- `compress_literals`: the size_format that selects the single-stream encoder -/")
+    L.append(f"def litSingleStreamFormat : Nat := {m.group(1)}")
+    b = fn_body(c, "compress_block", "headers")
+    m = re.search(r"if\s+literals_vec\.len\(\)\s*(>=|<=|==|!=|>|<)\s*(\d+)\s*\{\s*if\s+let\s+Some\(table\)\s*=\s*compress_literals", b)
+    if not m:
+        raise ExtractError("extract:headers:compress_block literals threshold")
+    L.append(f"/-- `compress_block`: `if literals_vec.len() {m.group(1)} K` ⇒ try Huffman literals, else raw -/")
+    L.append(f"def litCompressIf (a : Nat) : Bool := decide ({OPS[m.group(1)].replace('b', str(int(m.group(2))))})")
 
 
 def gen_matcher():
